@@ -119,6 +119,77 @@ def delete_wild(shape: int, n: int, ignore: bool, a: int, b: int) -> bool:
     return all('v' not in k for k in kids) or fail(why='not every match deleted', kids=kids)
 
 
+def _mk_parent(kind, v):
+    """final parents of different kinds that all accept the segment '0' / 'k'"""
+    if kind == 0:
+        return [v, v + 1]                 # list: '0' is an index
+    if kind == 1:
+        return {'0': v, 'k': v + 1}       # dict: '0' is a key
+    if kind == 2:
+        return Obj(k=v, z=1)              # object: 'k' is an attribute
+    return {'k': v}
+
+
+def delete_reuse(k1: int, k2: int, seg: int, style: int, ignore: bool, v: int) -> bool:
+    """ONE Delete spec object applied to parents of different kinds in successive calls: each call has the effect of del"""
+    start()
+    k1, k2, seg = concretize(k1, 0, 3), concretize(k2, 0, 3), concretize(seg, 0, 1)
+    if k1 is OUT or k2 is OUT or seg is OUT:
+        return True
+    name = ['0', 'k'][seg]
+    path, steps = spell(['p', name], [0, 1][style])
+    spec = Delete(path, ignore_missing=ignore)
+    for kind in (k1, k2):
+        t = {'p': _mk_parent(kind, v), 'z': [1]}
+        snap = plain(t)
+        exp = ref_delete(t, steps, ignore)
+        got = run(lambda: glom(t, spec, glom_debug=True))
+        if exp[0] == 'ok':
+            if got.kind != 'ok' or plain(t) != exp[1]:
+                return fail(why='re-used Delete spec: effect differs from del', kind=kind, got=got, t=t, exp=exp[1])
+        else:
+            if got.kind != 'err' or plain(t) != snap:
+                return fail(why='re-used Delete spec: expected an error and an unchanged target', kind=kind, got=got, t=t)
+    reach('reuse')
+    if k1 != k2:
+        reach('reuse_mixed')
+    return True
+
+
+def delete_wild_mixed(k0: int, k1: int, k2: int, seg: int, ignore: bool, v: int) -> bool:
+    """a wildcard whose matches are parents of different kinds"""
+    start()
+    k0, k1, k2, seg = concretize(k0, 0, 3), concretize(k1, 0, 3), concretize(k2, 0, 3), concretize(seg, 0, 1)
+    if OUT in (k0, k1, k2, seg):
+        return True
+    name = ['0', 'k'][seg]
+    rows = [_mk_parent(k, v + i) for i, k in enumerate((k0, k1, k2))]
+    t = {'rows': rows}
+    # reference: del at every match, in order; the first miss raises unless ignore_missing
+    exp_rows = [_mk_parent(k, v + i) for i, k in enumerate((k0, k1, k2))]
+    failed = False
+    for r in exp_rows:
+        res = ref_delete({'r': r}, [('P', 'r'), ('P', name)], ignore)
+        if res[0] == 'ok':
+            r2 = res[1]['r']
+            if isinstance(r, list):
+                r[:] = r2
+            elif isinstance(r, dict):
+                r.clear()
+                r.update(r2)
+            else:
+                r.__dict__.clear()
+                r.__dict__.update(r2.__dict__)
+        else:
+            failed = True
+            break
+    got = run(lambda: glom(t, Delete('rows.*.' + name, ignore_missing=ignore), glom_debug=True))
+    reach('wild_mixed')
+    if failed:
+        return got.kind == 'err' or fail(why='a missing element at one match must raise without ignore_missing', got=got)
+    return (got.kind == 'ok' and plain(rows) == plain(exp_rows)) or fail(why='wildcard delete over mixed parents', rows=rows, exp=exp_rows, got=got)
+
+
 def delete_fn(which: int, xs: List[int], v: int) -> bool:
     start()
     if which == 0:
@@ -172,6 +243,9 @@ def obligations(tier):
     for shape in range(5):
         obs.append(Ob(delete_wild, fixed={'shape': shape}, pre='1 <= n <= 3', name='delete_wild_%d' % shape))
     obs.append(Ob(delete_fn, pre='0 <= which <= 4 and len(xs) <= 2', name='delete_fn'))
+    for k1 in range(4):
+        obs.append(Ob(delete_reuse, fixed={'k1': k1}, pre='0 <= k2 <= 3 and 0 <= seg <= 1 and 0 <= style <= 1', name='delete_reuse_%d' % k1))
+        obs.append(Ob(delete_wild_mixed, fixed={'k0': k1}, pre='0 <= k1 <= 3 and 0 <= k2 <= 3 and 0 <= seg <= 1', name='delete_wild_mixed_%d' % k1))
     tp = '0 <= c0 < 5 and 0 <= c1 < 5'
     fx = {'fam': 0, 'style': 0, 'n': 2, 'c2': 0}
     obs.append(Ob(delete_path, fixed=fx, pre=tp, twin='pde', name='delete_path_dicts'))
@@ -180,4 +254,6 @@ def obligations(tier):
     obs.append(Ob(delete_list_idx, fixed={'style': 1, 'nested': False}, pre='len(xs) <= 3', twin='idx_err', name='delete_list_idx'))
     obs.append(Ob(delete_list_idx, fixed={'style': 1, 'nested': False}, pre='len(xs) <= 3', twin='idx_ignored', name='delete_list_idx'))
     obs.append(Ob(delete_wild, fixed={'shape': 0}, pre='1 <= n <= 3', twin='wild_many', name='delete_wild_0'))
+    obs.append(Ob(delete_reuse, fixed={'k1': 0}, pre='0 <= k2 <= 3 and 0 <= seg <= 1 and 0 <= style <= 1', twin='reuse_mixed', name='delete_reuse_0'))
+    obs.append(Ob(delete_wild_mixed, fixed={'k0': 0}, pre='0 <= k1 <= 3 and 0 <= k2 <= 3 and 0 <= seg <= 1', twin='wild_mixed', name='delete_wild_mixed_0'))
     return obs
